@@ -133,7 +133,9 @@ def correspond(ctx, rows, tag):
         o = "([" + "; ".join(("(%d)" % x if x < 0 else str(x)) for x in obs + [r["e0"][4]]) + "]%Z, @None (list Z))"
         cases.append((q, o))
         idx.append(k)
-    fails, err = vlib.coq_eval_cases(tag, IMPORTS, "nobs", "nobs_eqb", cases, shard=250)
+    # thorough: hundreds of thousands of cases -- larger shards and a longer overall timeout (the machine is shared)
+    big = len(cases) > 50000
+    fails, err = vlib.coq_eval_cases(tag, IMPORTS, "nobs", "nobs_eqb", cases, shard=1000 if big else 250, timeout=3000 if big else 900)
     if err:
         ctx.broken.append("correspondence C13: model evaluation failed")
         ctx.log(err[-3000:])
